@@ -1,7 +1,10 @@
 #!/bin/sh
-# usage: tools/with_patch.sh <patch> <check ids...>  - apply patch to /repo, run quick checks, undo
+# usage: tools/with_patch.sh <patch> <check ids...>  - scratch worktree of /repo HEAD with the patch, quick checks, removed
 P=$(realpath "$1"); shift
 cd "$(dirname "$0")/.."
-git -C /repo apply "$P" || exit 3
-for c in "$@"; do timeout 300 ./check "$c" 2>&1 | grep -E "^==|FAIL|VIOL|ERROR|Trace|line [0-9]|Error" | cut -c1-300; done
-git -C /repo checkout -- .
+W=/tmp/wp_$$
+git -C /repo worktree add -q -f $W HEAD || exit 3
+git -C $W apply "$P" || { git -C /repo worktree remove --force $W; exit 3; }
+mkdir -p ${W}_ev/replay
+for c in "$@"; do PMV_REPO=$W PMV_EVIDENCE_DIR=${W}_ev timeout 300 ./check "$c" 2>&1 | grep -E "^==|FAIL|VIOL|ERROR|Trace|line [0-9]|Error" | cut -c1-300; done
+git -C /repo worktree remove --force $W; rm -rf ${W}_ev
